@@ -89,6 +89,14 @@ def units(rng, tier):
                     z.insert(rng.randint(0, len(z)), 0)
                 if a not in ("dp", "ilp") or len(z) <= 8:
                     us.append(tag(part(rng, a, kk, z, fam, **kw), grp, "zeros"))
+    # dense agreement stream for complete greedy under every objective against the model's (proved optimal) value: 7-10 items, 3-4 bins -
+    # pruning rules that are valid for one objective only (min-max rules applied to max-min ...) lose the optimum on about 1 input in 1 000
+    for _ in range(1500 if tier == "quick" else 20000):
+        k = rng.choice([3, 3, 4])
+        v = [rng.randint(1, 40) for _ in range(rng.randint(7, 10))]
+        _gid[0] += 1
+        kw = {"objective": rng.choice([[0, 0], [0, 0], [0, 0], [1, 0], [2, 0], [3, 2], [4, 2]]), "flags": rng.choice([[1, 1, 0, 1], [1, 1, 0, 1], [rng.randint(0, 1) for _ in range(4)]])}
+        us.append(tag(part_unit("cg", k, v, rng, fmt="list", out="sums", cmp="value", family="cg-dense-agreement", **kw), f"{_gid[0]}/cg", "base"))
     # planted PERFECT partitions (total divisible by the number of bins, every bin exactly T): where the bounds of the searches are tight and
     # an off-by-one in a bound or a tie changes the answer for some scale factors only; complete greedy under every objective and random switches
     for _ in range(80 if tier == "quick" else 900):
